@@ -8,6 +8,8 @@ import AutomataVerif.Model.NFAOps
 import AutomataVerif.Proofs.NFATable
 import AutomataVerif.Proofs.NFAOpsUnary
 
+open AV.AL
+
 namespace AV
 namespace NFA
 
